@@ -102,3 +102,8 @@ def cases(tier, seed, ctx=None):
         yield ("tls", [1, h + b"\r\n\r\n" + tail, len(h) + 4, -1], "%srefused-then-second-record" % 'tls-')
         big = (b"GET /again HTTP/1.1\r\nHost: h\r\n\r\n" + b"junk " * 40) * rng.choice([30, 90])
         yield ("tls", [1, h + b"\r\n\r\n" + big, rng.choice([0, len(h) + 4, 3]), rng.choice([-1, 15])], "%srefused-then-several-KiB" % 'tls-')
+    # a client that sends more than its request (100..300 KB of further bytes) before the handler answers 40 ms later: the answer -
+    # a few bytes or 3 MiB - arrives whole and the connection is shut in an orderly way (no reset), TLS and plain alike
+    for j in range(4 if tier == "quick" else 24):
+        rq = (b"POST /big HTTP/1.1\r\nContent-Length: 5\r\n\r\nhello" if j % 2 else b"POST /x HTTP/1.1\r\nContent-Length: 5\r\n\r\nhello")
+        yield ("tlsraw", [rq, j % 4 // 2, 40, rng.choice([[], [7]]), 1, rng.choice([100000, 300000])], "%s-surplus-before-the-answer" % 'tlsraw')
